@@ -20,6 +20,7 @@ var registry = map[string]entry{
 	"C01": {"model_checking", checks.C01},
 	"C02": {"model_checking", checks.C02},
 	"C03": {"model_checking", checks.C03},
+	"C04": {"model_checking", checks.C04},
 	"C05": {"model_checking", checks.C05},
 	"C18": {"model_checking", checks.C18},
 	"C17": {"model_checking", checks.C17},
